@@ -740,3 +740,38 @@ Proof.
     + apply exec_offline; assumption.
 Qed.
 End OfflineHistory.
+
+(* ------------------------------------------------------------------ *)
+(* Discharging the hypothesis "Reader.ns can convert the fileTimeSecs"  *)
+(* ------------------------------------------------------------------ *)
+Unset Default Proof Using.
+Local Open Scope R_scope.
+
+(* any finite duration up to 2^100 s (a meta file holds a non-negative decimal number) *)
+Lemma ns_meta_total t fs : is_finite t = true -> fs_ok fs -> Rabs (B2R t) <= bpow radix2 100 ->
+  exists n, ns_meta (Some t) fs = NsOk n.
+Proof.
+  intros Ht [Hlo Hhi] Hb.
+  assert (HF : 0 < B2R fs) by lra.
+  pose proof (pos_finite fs HF) as Hfsfin.
+  destruct (fmul_correct t fs) as [P1 P2].
+  { apply rnd64_bounded. rewrite Rabs_mult. rewrite (Rabs_pos_eq (B2R fs)) by lra.
+    apply Rle_trans with (bpow radix2 100 * bpow radix2 64).
+    - apply Rmult_le_compat; [apply Rabs_pos|lra|exact Hb|].
+      change (bpow radix2 64) with 18446744073709551616. exact Hhi.
+    - rewrite <- bpow_plus. apply bpow_le. lia. }
+  unfold ns_meta, int_round, py_int.
+  destruct (Bnearbyint_correct prec emax Hemax mode_NE (fmul t fs)) as [_ [N2 _]].
+  rewrite N2, P2, Ht, Hfsfin. cbn [andb]. eauto.
+Qed.
+
+Local Open Scope Z_scope.
+
+(* an empty file never opens: np.memmap refuses to map an empty file *)
+Lemma empty_file_never_opens online isz nc fts fs ns nc' f rw :
+  open_bin online isz 0 nc fts fs <> Opened ns nc' f rw.
+Proof.
+  unfold open_bin.
+  destruct (reader_ns online isz 0 nc fts fs); try discriminate.
+  destruct (reader_ns online isz 0 nc _ fs); discriminate.
+Qed.
